@@ -371,6 +371,13 @@ class ProgramOptionsGetters(Contract):
             e = rets[0]['inner'][0] if rets[0].get('inner') else None
             while e is not None and e.get('kind') in ('ImplicitCastExpr', 'ExprWithCleanups', 'CXXConstructExpr', 'MaterializeTemporaryExpr', 'ParenExpr', 'CXXBindTemporaryExpr') and len(e.get('inner', [])) == 1:
                 e = e['inner'][0]
+            if e is not None and e.get('kind') == 'DeclRefExpr' and (e.get('referencedDecl') or {}).get('kind') == 'VarDecl':
+                # returned through a local that cannot be re-bound: follow its initialiser
+                vds = [x for x in _walk(body(fns[0])) if x.get('kind') == 'VarDecl' and x.get('id') == e['referencedDecl'].get('id')]
+                if len(vds) == 1 and 'const' in vds[0].get('type', {}).get('qualType', '') and vds[0].get('inner'):
+                    e = vds[0]['inner'][-1]
+                    while e.get('kind') in ('ImplicitCastExpr', 'ExprWithCleanups', 'CXXConstructExpr', 'MaterializeTemporaryExpr', 'ParenExpr', 'CXXBindTemporaryExpr') and len(e.get('inner', [])) == 1:
+                        e = e['inner'][0]
             if e is None or e.get('kind') != 'MemberExpr':
                 raise ExtractionError(f'ProgramOptions::{g}: does not simply return a member (contract has to be rewritten)')
             mem = e.get('name')
